@@ -279,6 +279,8 @@ impl BuiltInFunction {
                     call_stack: Rc<RefCell<Stack>>,
                     filter_result: GcVector,
                     index: Cell<i32>,
+                    /// the element the callback is deciding about
+                    tested: RefCell<Option<Primitive>>,
                 }
 
                 impl FilterOp {
@@ -294,6 +296,7 @@ impl BuiltInFunction {
                             filter_result: GcVector::default(),
                             underlying,
                             index: Cell::new(0),
+                            tested: RefCell::new(None),
                         }
                     }
                 }
@@ -308,6 +311,9 @@ impl BuiltInFunction {
                             .cloned()
                             .context("the list was shortened while it was being traversed")?;
 
+                        // the callback may change the list: what is kept is the element it was asked about
+                        *self.tested.borrow_mut() = Some(this_value.clone());
+
                         Ok(JumpRequest {
                             destination: JumpRequestDestination::Standard(
                                 self.callback_path.clone(),
@@ -320,16 +326,10 @@ impl BuiltInFunction {
 
                     fn then(&self, return_value: ReturnValue) -> Result<bool> {
                         let mut result = self.filter_result.0.borrow_mut();
+                        let tested = self.tested.borrow_mut().take();
 
                         if let ReturnValue::Value(Primitive::Bool(true)) = return_value {
-                            let underlying = self.underlying.0.borrow();
-                            let this_index: usize = (self.index.get() - 1).try_into()?;
-                            result.push(
-                                underlying
-                                    .get(this_index)
-                                    .cloned()
-                                    .context("the list was shortened while it was being traversed")?,
-                            );
+                            result.push(tested.context("filter's callback returned without having been asked")?);
                         }
 
                         Ok(<i32 as TryInto<usize>>::try_into(self.index.get())?
